@@ -56,3 +56,7 @@ End OneServer.
 Arguments srun {N K A R} node_run s h.
 Arguments crun {N K A R} node_run owner cl h.
 Arguments agrees {N K} owner {Slot} get cl s.
+
+(* script cache: the sha answered for a text is the most recent one registered for exactly that text *)
+Definition last_set (script : string) (h : list (string * string)) : option string :=
+  fold_left (fun acc p => if String.eqb (fst p) script then Some (snd p) else acc) h None.
